@@ -38,7 +38,9 @@ MAX_OUT_NODES = 120      # tree size of the implementation's output above which 
 MAX_IN_NODES = 30
 GEOMETRY_RULES = {"x", "x_component", "x_square", "x_sin", "grad_grad_x", "jacobian", "jacobian_inverse", "detJ",
                   "detJ_only", "facet_normal", "circumradius", "cell_volume", "constant", "constant_vec",
-                  "dg0_coefficient", "literal", "zero_shortcut"}
+                  "dg0_coefficient", "literal", "zero_shortcut", "restricted_dg0_x", "restricted_normal_x", "jump_dg0_x",
+                  "restricted_detJ_dx", "restricted_dg0_div", "restricted_literal", "sub0_scalar", "sub0_vector",
+                  "sub0_grad_grad", "sub0_restricted", "restricted_inside", "restricted_outside", "restricted_const"}
 # the lowering of the differential operators is written per dimension / per component: always traced on every cell
 OPERATOR_RULES = {"curl_scalar", "curl_vec2", "curl_curl2", "curl_vec3", "curl_curl3", "div_curl", "curl_grad", "cross",
                   "curl_inner", "curl_list", "perp", "laplace", "div_vec", "div_tensor", "nabla_div_tensor", "nabla_grad_s",
@@ -182,6 +184,13 @@ def rule_cases(cell):
         ("variable", lambda: grad(ufl.variable(f * h) * w)), ("variable_vec", lambda: grad(ufl.variable(v) * f)),
         ("restricted_inside", lambda: grad(f("+") * h("+"))), ("restricted_outside", lambda: grad(f * h)("-")),
         ("restricted_const", lambda: grad(c("+") * f("+"))),
+        # the derivative is cellwise constant but depends on the side
+        ("restricted_dg0_x", lambda: grad((q0 * x[0])("+"))), ("restricted_normal_x", lambda: grad((n[0] * x[g - 1])("-"))),
+        ("jump_dg0_x", lambda: grad(ufl.jump(q0 * x[0]))), ("restricted_detJ_dx", lambda: (detJ * x[0] * x[0])("-").dx(0)),
+        ("restricted_dg0_div", lambda: div((q0 * x)("+"))), ("restricted_literal", lambda: grad((3 * x[0] + f)("+"))),
+        # elements that contain only P0 as Lagrange subspace but are not piecewise constant
+        ("sub0_scalar", lambda: grad(G.s0 * f)), ("sub0_vector", lambda: div(G.r0 * f)),
+        ("sub0_grad_grad", lambda: grad(grad(G.s0))), ("sub0_restricted", lambda: grad(G.s0("+") * x[0])),
         ("grad_grad", lambda: grad(grad(f))), ("grad_grad_product", lambda: grad(grad(f * h))),
         ("grad_grad_grad", lambda: grad(grad(grad(f)))), ("grad3_product", lambda: grad(grad(grad(f * h)))),
         ("laplace", lambda: div(grad(f))), ("laplace_product", lambda: div(grad(f * h))), ("laplace_quot", lambda: div(grad(f / h))),
@@ -229,7 +238,8 @@ def ctor_cases(cell, rng, ncomp=6):
     f = G.f[0]
     x, c, detJ = G.x, G.c, G.detJ
     ops = [("x", x), ("x0_sq", x[0] * x[g - 1]), ("c_x0", c * x[0]), ("sin_x0", ufl.sin(x[0])), ("f", f),
-           ("c_detJ", c * detJ), ("lit_c", 2.0 * c), ("x_scaled", detJ * x), ("cv", G.cv), ("x0_f", x[0] * f)]
+           ("c_detJ", c * detJ), ("lit_c", 2.0 * c), ("x_scaled", detJ * x), ("cv", G.cv), ("x0_f", x[0] * f),
+           ("sub0", G.s0), ("sub0_vec", G.r0), ("sub0_c", c * G.s0), ("q0", G.q0), ("q0_x", G.q0 * x)]
     out = []
     for nm, op in ops:
         for dn, build, spec in [("grad", ufl.grad, "Grad {op} %d" % g), ("nabla_grad", ufl.nabla_grad, "NablaGrad {op} %d" % g)] + (
